@@ -258,7 +258,8 @@ pub fn decode_inst(t: &Tape, cfg: &GenCfg, prefix: &str) -> Inst {
     for i in 0..nslots {
         let r: &[u32] = srecs.get(i).map(|r| r.as_slice()).unwrap_or(&[]);
         let loc = pick(f(r, 0), nlocs);
-        let tick = if cfg.small_grid { pick(f(r, 1), 8) as i64 } else { pick(f(r, 1), 144) as i64 };
+        // mostly on the first day; one slot in six a day later (extends the planning horizon)
+        let tick = if cfg.small_grid { pick(f(r, 1), 8) as i64 } else { pick(f(r, 1), 144) as i64 + if pick_w(f(r, 1) << 7, &[5, 1]) == 1 { 144 } else { 0 } };
         let duration = if cfg.small_grid { choose(f(r, 2), &[600i64, 1200]) } else { choose(f(r, 2), &[3600i64, 600, 14400]) };
         let tracks = if cfg.cycle_rich { 2 + pick_w(f(r, 3), &[3, 2]) as u64 } else { 1 + pick_w(f(r, 3), &[4, 3, 1]) as u64 };
         slot_list.push(SlotIn {
